@@ -25,6 +25,8 @@ type c14PushCase struct {
 	// ErrShape: what a rejection looks like: 0 an ordinary error value, 1 a nil pointer of a pointer-receiver
 	// error type (a non-nil error all the same), 2 an error of a struct type, 3 a wrapped error
 	ErrShape int `json:"error_shape,omitempty"`
+	// Rebuilt: the prefilled content was reached the long way round (one more value in front, removed again)
+	Rebuilt bool `json:"prefill_reached_through_remove,omitempty"`
 }
 
 // ptrErr is an error type with pointer receiver: a nil *ptrErr in an error interface is a non-nil error.
@@ -90,7 +92,16 @@ func c14PushRun(c *Ctx, cs c14PushCase, count bool) {
 	for i := 0; i < cs.Prefill; i++ {
 		pre = append(pre, fmt.Sprintf("pre%d", i))
 	}
-	s.Push(pre...)
+	if cs.Rebuilt && cs.Prefill > 0 {
+		if cs.Cap > 0 && cs.Cap < cs.Prefill+1 {
+			return // no room for the value that passes through
+		}
+		s.Push("passing-through")
+		s.Push(pre...)
+		s.Remove(0) // the batch under test is the first Push after the rebuild
+	} else {
+		s.Push(pre...)
+	}
 	if s.Len() != cs.Prefill {
 		return
 	}
@@ -224,9 +235,12 @@ func c14PushCases(c *Ctx) []c14PushCase {
 							if nn && (pre != 0 || cp == 3) {
 								continue
 							}
-							out = append(out, c14PushCase{k, pol, b, cp, pre, nn, false, 0})
+							out = append(out, c14PushCase{k, pol, b, cp, pre, nn, false, 0, false})
+							if pre > 0 && cp > 0 && !nn {
+								out = append(out, c14PushCase{k, pol, b, cp, pre, nn, false, 0, true})
+							}
 							if len(b) <= 2 || cp == 2 {
-								out = append(out, c14PushCase{k, pol, b, cp, pre, nn, true, 0})
+								out = append(out, c14PushCase{k, pol, b, cp, pre, nn, true, 0, false})
 							}
 						}
 					}
@@ -259,7 +273,7 @@ func c14PushCases(c *Ctx) []c14PushCase {
 					b[p+2] = 1
 				}
 				for _, cp := range []int{0, n - 2, n + 5} {
-					out = append(out, c14PushCase{kindNames[(n+p)%5], 1, b, cp, 0, false, cp == 0 && odd == 1, 0}, c14PushCase{kindNames[(n+p+1)%5], 15, b, cp, 1, false, false, 0})
+					out = append(out, c14PushCase{kindNames[(n+p)%5], 1, b, cp, 0, false, cp == 0 && odd == 1, 0, false}, c14PushCase{kindNames[(n+p+1)%5], 15, b, cp, 1, false, false, 0, false})
 				}
 			}
 		}
@@ -510,6 +524,18 @@ func c14PolMachine(c *Ctx, kind string) *Machine[*polInst] {
 				} else if !reflect.DeepEqual(u, tu) {
 					bad("cond-unmarshal", "Unmarshal()=%v want the built-in %v", u, tu)
 				}
+				// the same Condition as an element of a Stack: the Stack's Unmarshal asks the Condition, and the
+				// Condition asks its closure
+				if pu, perr := stackage.List().Push("x", in.cd).Unmarshal(); len(pu) == 3 {
+					row, _ := pu[2].([]any)
+					if in.umf && !in.umfPartial && (len(row) != 1 || row[0] != "UNMARSHALED") {
+						bad("cond-unmarshal-nested", "as an element of a LIST: the LIST's Unmarshal hands out %v for it (err %v), want the result of the Condition's own unmarshal closure", pu[2], perr)
+					} else if !in.umf && !reflect.DeepEqual(pu[2], any(tu)) {
+						bad("cond-unmarshal-nested", "as an element of a LIST: the LIST's Unmarshal hands out %v for it, want the built-in row %v", pu[2], tu)
+					}
+				} else if !in.umfPartial {
+					bad("cond-unmarshal-nested", "as an element of a LIST: the LIST's Unmarshal gives %v (err %v), want label + two entries", pu, perr)
+				}
 				ev, eerr := in.cd.Evaluate(1, 2)
 				if in.evl {
 					if ev != "EVALUATED" || eerr != nil {
@@ -613,9 +639,9 @@ func c14PolMachine(c *Ctx, kind string) *Machine[*polInst] {
 		},
 		Key: func(in *polInst) string {
 			if isCond {
-				return stackage.VerifDump(in.cd).Key(false) + fmt.Sprint(in.vpf, in.eqf)
+				return stackage.VerifDump(in.cd).Key(false) + fmt.Sprint("|model:", in.vpf, in.rpf, in.eqf, in.umf, in.umfPartial, in.evl, in.ro)
 			}
-			return stackage.VerifDump(in.s).Key(false) + fmt.Sprint(in.vpf, in.eqf, in.basicRefused)
+			return stackage.VerifDump(in.s).Key(false) + fmt.Sprint("|model:", in.vpf, in.rpf, in.eqf, in.umf, in.umfPartial, in.maf, in.ro, in.basicRefused)
 		},
 	}
 }
